@@ -90,14 +90,14 @@ def v_event(e):
     raise ValueError(k)
 
 
-HEADER = ('From Coq Require Import ZArith NArith List.\n'
+HEADER = ('From Coq Require Import ZArith NArith List Uint63.\n'
           'From PSO Require Import Raft.Types Raft.Node Raft.Net Raft.Obs.\n'
           'Import ListNotations.\nOpen Scope N_scope.\n')
 
 
 def v_case(name, cfg, mevents, digests):
     return ('Definition ev_%s : list event := [\n  %s].\n'
-            'Definition dg_%s : list N := [%s].\n' % (
+            'Definition dg_%s : list Uint63.int := [%s]%%uint63.\n' % (
                 name, ';\n  '.join(v_event(e) for e in mevents), name, '; '.join(str(d) for d in digests)),
             '(check_trace %s ginit ev_%s dg_%s 0)' % (v_conf(cfg), name, name))
 
@@ -765,6 +765,7 @@ def converge_trace(seed, n_events=200, workdir=None, keep_obs=False, listeners=(
     cfg['fallback'] = rng.choice([50, 300, 3000])
     rec = Recorder(cfg, workdir)
     rec.keep_obs = keep_obs
+    rec.model_ok = False     # long quiet periods: run under the monitors only (the same events are model-checked in the other generators)
     fired_log = {}
 
     def collect(r, ev, nid):
